@@ -338,6 +338,83 @@ def stream_sampleN(ctx, built, ntables, max_rows=80, name="S-sampleN"):
     return S
 
 
+def stream_sampleD(ctx, built, ntables, max_rows=80, name="S-sampleD"):
+    """the whole Synthesizer under the default strategy inside the model: measures -> plan search -> materialise / stitch,
+    on one recorded main RNG, against the plan and the table of the real Synthesizer(DefaultClustering(...)).sample()."""
+    import syndiffix.synthesizer as SY
+    import plan_streams as PS
+    from syndiffix import Synthesizer
+    from syndiffix.clustering.strategy import DefaultClustering
+    R = ctx.rng
+    S = ctx.stream(name, "typed tables of 3..6 columns (<= sample_size rows, so no sub-sampling) x DefaultClustering(main_column none/any, max_weight 1.5..15, "
+                   "merge_threshold, solver_alpha): the model measures entropies and the dependence matrix on its own forest, searches the plan with the "
+                   "recorded main RNG, materialises every cluster and stitches; compared with the real Synthesizer: the cluster plan, the column order "
+                   "and every value of the assembled table; non-trivial = > 4 columns (annealing search runs) or >= 2 clusters, distinct by input")
+
+    class RecDefault(DefaultClustering):
+        def build_clusters(self, forest):
+            main = TS.RecRandom(); main.setstate(forest.unsafe_rng.getstate()); main.log = []
+            forest.unsafe_rng = main; self.rec_main = main
+            return super().build_clusters(forest)
+
+    for ti in range(ntables):
+        t = gen_typed_table(R, max_rows=max_rows, ncols=R.choice([3, 4, 5, 5, 6, 6]))
+        ncols = len(t["df"].columns)
+        mainc = R.choice([None, None, R.randrange(ncols)])
+        mw = R.choice([1.5, 2.0, 3.0, 15.0]); mt = R.choice([0.1, 0.1, 0.3]); alpha = R.choice([1e-2, 1e-2, 0.05])
+        strat = RecDefault(main_column=mainc, max_weight=mw, merge_threshold=mt, solver_alpha=alpha)
+        try:
+            convs, data, F, kind, ft = prepare(t)
+            syn = Synthesizer(t["df"], pids=t["pids"], anonymization_params=t["ap"], bucketization_params=t["bp"], clustering=strat)
+        except RecursionError:
+            continue
+        main = strat.rec_main
+        recs, cap = [], {}
+        def derive():
+            r = TS.RecRandom(main.random()); recs.append(r); return r
+        syn.forest.derive_unsafe_rng = derive
+        orig_bt = SY.build_table
+        def cap_bt(*a, **k):
+            rows, comb = orig_bt(*a, **k); cap["rows"] = rows; cap["comb"] = comb; return rows, comb
+        SY.build_table = cap_bt
+        err = None
+        try:
+            try:
+                syn.sample()
+            except (IndexError, ZeroDivisionError, ValueError) as e:
+                err = type(e).__name__
+        finally:
+            SY.build_table = orig_bt
+        cl = syn.clusters
+        key = (repr(t["df"].values.tolist()), repr(t["pids"].values.tolist()) if t["pids"] is not None else None, repr(t["ap"]), repr(t["bp"]), mainc, mw, mt, alpha)
+        if err is not None or "rows" not in cap:
+            S.count(key, False, {"table": typed_summary(t), "skipped": err}, tag="skipped")
+            continue
+        parts = [f"{ncols} " + " ".join(conv_tok(c) for c in syn.column_convertors),
+                 " ".join("1" if b else "0" for b in syn.column_is_integral),
+                 ("-" if mainc is None else str(mainc)) + f" {f2b(mw)} {f2b(mt)} {f2b(alpha)}",
+                 " ".join(_draw_toks(main.log))]
+        for k in range(0, len(recs) - 1, 2):
+            parts.append(" ".join(str(e[3]) for e in recs[k].log if e[0] == "randint"))
+            parts.append(" ".join(_draw_toks(recs[k + 1].log)))
+        req = "sampleD " + " | ".join(parts)
+        exp = ["clusters " + PS.clusters_str(cl), "cols " + " ".join(str(c) for c in cap["comb"])] + \
+              [" ".join(cell_tok((v, 0.0)).rsplit(":", 1)[0] for v in row) for row in cap["rows"]] + ["left 0"]
+        S.count(key, ncols > 4 or len(cl.derived_clusters) >= 1,
+                {"table": typed_summary(t), "main": mainc, "max_weight": mw, "clusters": PS.clusters_str(cl), "rows": len(cap["rows"])},
+                tag=f"{ncols}cols/{1 + len(cl.derived_clusters)}cl")
+        if built:
+            got = TS.split_replies(drive(TS.forest_lines(ft, F, kind) + [req], timeout=900))
+            g = got[-1] if got else ["<no reply>"]
+            g = [l if l.split(" ")[0] in ("clusters", "cols", "left", "ERR") else " ".join(tok.rsplit(":", 1)[0] for tok in l.split(" ")) for l in g]
+            if exp != g:
+                k = next((i for i, (a, b) in enumerate(zip(exp, g)) if a != b), min(len(exp), len(g)))
+                S.mismatch({"table": typed_summary(t), "main": mainc, "max_weight": mw}, g[k] if k < len(g) else "<missing>",
+                           exp[k] if k < len(exp) else "<missing>", f"(line {k} of {len(exp)}/{len(g)})")
+    ctx.obligation(f"correspondence {name} (whole default-strategy synthesis: plan and table, exact)", "correspondence", S.d["mismatches"] == 0, f"{S.d['mismatches']} mismatches")
+    return S
+
+
 def stream_micro_synth(ctx, built, ncases, oracle=None, name="S-micro-synth"):
     """generate_microdata called directly on synthetic bucket lists: every convertor kind with encodings fitted on random columns, ranges that are
     singular / dyadic / clipped at the domain end / sharing a lower bound, null stand-ins on either side of the domain (positive and negative)."""
